@@ -32,6 +32,7 @@ type Case struct {
 	Fn     string            `json:"fn"`
 	Inputs map[string]uint64 `json:"inputs"`
 	Params map[string]uint64 `json:"params"`
+	Sched  []string          `json:"sched"` // "thread|point" events in the order the engine's schedule had them
 }
 
 type replayFile struct {
@@ -78,6 +79,10 @@ func Begin(i int) string {
 	counts = map[string]int{}
 	Failed = nil
 	mainGID = gid()
+	seqMu.Lock()
+	seq, seqDone, seqOff = c.Sched, make([]bool, len(c.Sched)), false
+	threadNames = map[uint64]string{}
+	seqMu.Unlock()
 	emit(fmt.Sprintf("== case %d", i))
 	return c.Fn
 }
@@ -236,7 +241,162 @@ func Run(n string, f func()) {
 
 func SchedMode(preemptions int) {}
 func SchedOff()                 {}
-func Sched(point string)        {}
+
+// ---- native schedule replay ------------------------------------------------
+//
+// Under the engine, Spawn creates named threads and Sched(point) is a place
+// where the exploration may switch threads. A counterexample carries the global
+// order of the (thread, point) events of its schedule; natively Sched enforces
+// that order: a thread arriving at its event waits until every earlier event
+// has happened, and leaves the hook only when every event ordered before its
+// own next event has happened (it was preempted exactly there). Waiting is
+// bounded; on a timeout sequencing is abandoned and threads run freely.
+
+var (
+	seqMu       sync.Mutex
+	seqCond     = sync.NewCond(&seqMu)
+	seq         []string
+	seqDone     []bool
+	seqOff      bool
+	threadNames = map[uint64]string{}
+	spawned     sync.WaitGroup
+)
+
+func threadName() string { return threadNames[gid()] }
+
+func seqWait(upto int) bool {
+	// wait until all events with index < upto are done (seqMu held)
+	deadline := time.Now().Add(3 * time.Second)
+	for {
+		all := true
+		for i := 0; i < upto && i < len(seqDone); i++ {
+			if !seqDone[i] {
+				all = false
+				break
+			}
+		}
+		if all || seqOff {
+			return !seqOff
+		}
+		if time.Now().After(deadline) {
+			seqOff = true
+			seqCond.Broadcast()
+			emit("X:schedule-replay-abandoned")
+			return false
+		}
+		seqMu.Unlock()
+		time.Sleep(2 * time.Millisecond)
+		seqMu.Lock()
+	}
+}
+
+// Sched marks a named schedule point.
+func Sched(point string) {
+	seqMu.Lock()
+	defer seqMu.Unlock()
+	name := threadName()
+	if name == "" || seqOff || len(seq) == 0 {
+		return
+	}
+	me := name + "|" + point
+	// my event: the first not-yet-done event of this thread
+	mine := -1
+	for i, e := range seq {
+		if !seqDone[i] && len(e) > len(name) && e[:len(name)+1] == name+"|" {
+			mine = i
+			break
+		}
+	}
+	if mine < 0 {
+		return // past the recorded schedule: run freely
+	}
+	if seq[mine] != me {
+		seqOff = true // the native execution diverged from the engine's: stop sequencing
+		seqCond.Broadcast()
+		emit("X:schedule-replay-diverged " + me + " expected " + seq[mine])
+		return
+	}
+	if !seqWait(mine) {
+		return
+	}
+	seqDone[mine] = true
+	// stay in the hook until everything ordered before my next event has happened
+	next := len(seq)
+	for i := mine + 1; i < len(seq); i++ {
+		if len(seq[i]) > len(name) && seq[i][:len(name)+1] == name+"|" {
+			next = i
+			break
+		}
+	}
+	if next == len(seq) {
+		// no later event of mine: if other threads' events follow directly, let them go first
+		for i := mine + 1; i < len(seq); i++ {
+			next = i + 1
+		}
+		if mine+1 < len(seq) {
+			seqWaitOthers(mine+1, name)
+		}
+		return
+	}
+	seqWait(next)
+}
+
+// seqWaitOthers waits (bounded, shorter) for the events of other threads that
+// directly follow this thread's last event.
+func seqWaitOthers(from int, name string) {
+	deadline := time.Now().Add(500 * time.Millisecond)
+	for !seqOff && time.Now().Before(deadline) {
+		all := true
+		for i := from; i < len(seqDone); i++ {
+			if !seqDone[i] {
+				all = false
+			}
+		}
+		if all {
+			return
+		}
+		seqMu.Unlock()
+		time.Sleep(2 * time.Millisecond)
+		seqMu.Lock()
+	}
+}
+
+// Spawn starts f as a named harness thread (see JoinAll).
+func Spawn(name string, f func()) {
+	spawned.Add(1)
+	go func() {
+		defer spawned.Done()
+		seqMu.Lock()
+		threadNames[gid()] = name
+		seqMu.Unlock()
+		defer func() {
+			if r := recover(); r != nil {
+				if _, ok := r.(assumeFailed); ok {
+					return
+				}
+				mu.Lock()
+				emit(fmt.Sprintf("P:%v", r))
+				Failed = append(Failed, "panic")
+				mu.Unlock()
+			}
+		}()
+		f()
+	}()
+}
+
+// JoinAll waits for every spawned thread.
+func JoinAll() {
+	done := make(chan struct{})
+	go func() { spawned.Wait(); close(done) }()
+	select {
+	case <-done:
+	case <-time.After(20 * time.Second):
+		mu.Lock()
+		emit("X:run-timeout:JoinAll")
+		Failed = append(Failed, "deadlock")
+		mu.Unlock()
+	}
+}
 
 func Ite8(c bool, a, b byte) byte {
 	if c {
